@@ -56,8 +56,10 @@ RULE = (
     'expression on all multisets of size <= 4 over {null,0,1,2} (and the same '
     'shapes over {null,"a","ab","b"}; value/argument pairs with distinct '
     'arguments in both label orders for ArgMin/ArgMax/ArgMinK/ArgMaxK/Array) '
-    'x all distinct arrangements of the fact statements (quick: all '
-    'arrangements up to 3 rows, seeded arrangements of 4 rows); TLC '
+    'x all distinct arrangements of the fact statements (quick tier: all '
+    'arrangements up to 2 rows and all null-free arrangements of 3 scalar '
+    'rows, seeded arrangements of the other multisets; string domain on a '
+    'subset); TLC '
     '(LSemTrace: LValues!Builtin / LValues!Agg) decides every table. '
     'Kept out of the domains as engine-defined: negative Element index, '
     'inexact `/`, `%` with negative or zero operands, ToInt64 of non-numeric '
